@@ -1,4 +1,5 @@
 import GmQuic.Props.C06.RoundTrip
+import GmQuic.Lemmas.ProtectToy
 /-!
 C06, clauses 3–5: any modification of a protected packet delivers no frames; a wrong packet number or key is
 rejected; and (only for the RFC order of the reserved-bit check) the rejection is silent.
@@ -30,28 +31,6 @@ theorem accepted_only_original {K H : Type} (A : Aead K) (P : Hp H) (c : RxCfg K
   obtain ⟨h1, h2, h3, h4, h5⟩ := opened_is_original A P c k t pkt off w hp hi buf' off' sp' ty' k' pn'
     a.hsplit a.hty (by rw [ho]; simp)
   exact ⟨h1, h2, h3, h5, by rw [a.hkey, h4]⟩
-
-theorem flipBit_ne (bs : Bytes) (i : Nat) (hi : i < 8 * bs.length) : flipBit i bs ≠ bs := by
-  unfold flipBit
-  have hj : i / 8 < bs.length := by omega
-  generalize i / 8 = j at hj
-  have hm : UInt8.ofNat (2 ^ (7 - i % 8)) ≠ 0 := by
-    have : ∀ r : Fin 8, UInt8.ofNat (2 ^ (7 - r.val)) ≠ 0 := by decide
-    exact this ⟨i % 8, by omega⟩
-  generalize UInt8.ofNat (2 ^ (7 - i % 8)) = x at hm
-  clear hi
-  induction bs generalizing j with
-  | nil => simp at hj
-  | cons b bs ih =>
-    cases j with
-    | zero =>
-      simp only [List.modify_zero_cons, ne_eq, List.cons.injEq, and_true]
-      intro h
-      have : b ^^^ x = b ^^^ 0 := by rw [h]; simp
-      exact hm ((UInt8.xor_right_inj b).mp this)
-    | succ j =>
-      simp only [List.modify_succ_cons, ne_eq, List.cons.injEq, true_and]
-      exact ih j (by simpa using hj)
 
 /-- **any_bitflip_rejected**: for every bit position of the protected packet (first-byte bits, protected pn,
 header/AAD, ciphertext, tag, sample), receiving the flipped packet — however its header then parses — delivers
